@@ -30,6 +30,12 @@ class Col:
         return '%s%s' % (self.name, sorted(self.tags) if self.tags else '')
 
 
+class RelRef:
+    """pseudo FROM item: an already computed relation (used by the plan interpreter)"""
+    def __init__(self, rel, alias=None):
+        self.rel, self.alias = rel, alias
+
+
 class Rel:
     def __init__(self, cols, rows):
         self.cols = cols            # [Col]
@@ -126,6 +132,7 @@ class Evaluator:
         self.consts = consts or {}
         self.extra = {k.lower(): v for k, v in (extra_relations or {}).items()}
         self.var_binding = var_binding
+        self.table_filter = table_filter
         self.assumptions = []       # side conditions under which the evaluation is well defined (e.g. distinct order keys)
 
     # ---- expressions ----------------------------------------------------------------------------
@@ -158,7 +165,16 @@ class Evaluator:
         if isinstance(node, A.Identifier):
             return self.lookup(node, rel, row)
         if isinstance(node, A.Parameter) and isinstance(node.value, str) is False and hasattr(node.value, 'step_num'):
-            raise Unsupported('bare result parameter')
+            # a step result used as a scalar: the value of its single row / column (NULL when empty)
+            sub = self.extra.get('result_%s' % node.value.step_num)
+            if sub is None or sub.width() != 1:
+                raise Unsupported('scalar use of step result %r' % (node.value,))
+            nu, va = TRUE, z3.IntVal(0)
+            for p, cs in reversed(sub.rows):
+                nu = z3.If(p, cs[0][0], nu)
+                va = z3.If(p, cs[0][1], va)
+            self.assumptions.append(z3.AtMost(*[p for p, _ in sub.rows], 1) if sub.rows else TRUE)
+            return (nu, va)
         if isinstance(node, A.BetweenOperation):
             x, lo, hi = (self.expr(a, rel, row, group) for a in node.args)
             return self.and3(self.cmp('>=', x, lo), self.cmp('<=', x, hi))
@@ -292,6 +308,8 @@ class Evaluator:
 
     # ---- relations ------------------------------------------------------------------------------
     def from_item(self, node, outer=None):
+        if isinstance(node, RelRef):
+            return node.rel
         if isinstance(node, A.Identifier):
             parts = [str(p).lower() for p in node.parts]
             alias = [str(p).lower() for p in node.alias.parts] if node.alias is not None else None
@@ -301,6 +319,8 @@ class Evaluator:
                 tags = [tuple(alias)] if alias else [(name,)]
                 return Rel([Col(c.name, tags) for c in src.cols], [(p, list(cs)) for p, cs in src.rows])
             tags = [tuple(alias)] if alias else [tuple(parts[i:]) for i in range(len(parts))]
+            if self.table_filter is not None:
+                self.table_filter(name)
             return self.db.scan(name, tags)
         if isinstance(node, A.Join):
             return self.join(node, outer)
@@ -351,7 +371,9 @@ class Evaluator:
             if q.cte:
                 for cte in q.cte:
                     self.extra[str(cte.name.parts[-1]).lower()] = self.query(cte.query, outer)
-            if q.from_table is None:
+            if getattr(q, '_symrel_src', None) is not None:
+                src = q._symrel_src
+            elif q.from_table is None:
                 src = Rel([], [(TRUE, [])])
             else:
                 src = self.from_item(q.from_table, outer)
